@@ -7,6 +7,8 @@ wt=$1; n=$2; shift 2
 tag=$(basename $wt)-$n
 res=/var/tmp/mutres/$tag.txt
 : > $res
+# bring the scratch worktree to /repo's current HEAD (hook commits may have been added since it was created)
+(cd $wt && git checkout -q -- . && git checkout -q --detach $(git -C /repo rev-parse HEAD))
 conf=$(/verif/tools/confirm_mut.sh $wt $n 2>&1 | tail -1)
 echo "CONFIRM $conf" >> $res
 snap=/var/tmp/mv_$tag
